@@ -253,3 +253,57 @@ def replay_layout(prop, v):
         for x in r["violations"][:3]:
             errs += x["errors"]
     return ["[tlc] " + e for e in errs]
+
+
+def widths_stage(prop, tier, name):
+    """C11 / C12: every handle is one pointer wide (two for slices / trait objects) and leaves the null niche to Option,
+    in a build without debug assertions and in one with them. The expected widths are Layout.tla's HandleBytes."""
+    wd = workdir(prop)
+    stage_spec(wd, ["Layout.tla"])
+    res = {"name": name, "states": 0, "transitions": 0, "evaluations": 0, "nontrivial": 0, "traces": 0, "samples": [],
+           "violations": [], "notes": [], "exhaustive": True, "detail": {}}
+    mod = ["---- MODULE MC_Widths ----", "EXTENDS Layout, Json", 'ASSUME PrintT(<<"WIDTHS", ToJson(HandleBytes)>>)', "===="]
+    with open(os.path.join(wd, "MC_Widths.tla"), "w") as f:
+        f.write("\n".join(mod) + "\n")
+    cfg = "SPECIFICATION Spec\nCONSTANTS\n  Aligns = {1}\n  MaxSize = 1\n  MaxLen = 0\n  MaxIsize = 100000000\nCHECK_DEADLOCK FALSE\n"
+    out, st = run_tlc(wd, "MC_Widths.tla", cfg, "widths", workers=1, timeout=600, java_opts=["-Xmx2g"])
+    want = None
+    for line in open(out, errors="replace"):
+        if line.startswith('<<"WIDTHS"'):
+            want = json.loads(line.rstrip()[len('<<"WIDTHS", "'):-len('">>')].replace('\\"', '"'))
+    if want is None:
+        raise ToolError("TLC did not print the handle widths: %s" % st)
+    res["states"], res["transitions"], res["tlc"] = st["distinct"], st["generated"], st
+    n = 0
+    for cfgname, what in (("a", "release profile"), ("d", "debug assertions and overflow checks on")):
+        exe = build_harness(cfgname)
+        outp = os.path.join(wd, "widths_%s.json" % cfgname)
+        r = subprocess.run([exe, "widths", outp], cwd=wd, stdout=subprocess.PIPE, stderr=subprocess.STDOUT, text=True, timeout=120)
+        if r.returncode != 0:
+            raise ToolError("tvh widths failed: %s" % r.stdout[-300:])
+        for row in json.load(open(outp)):
+            n += 1
+            w = want[row["kind"]]
+            if prop == "C12" and row["kind"] != "ArcUnion":
+                continue
+            if row["size"] != w or row["option"] != w or row["stride"] != w:
+                res["violations"].append({"stage": name, "key": "width:%s:%s" % (row["kind"], cfgname), "row": row, "cfg": cfgname,
+                                          "errors": ["[width] %s<%s> (%s): the handle is %d bytes, Option of it %d, array stride %d; the specification says %d for all three"
+                                                     % (row["kind"], row["shape"], what, row["size"], row["option"], row["stride"], w)]})
+    seen, uniq = set(), []
+    for v in res["violations"]:
+        if v["key"] not in seen:
+            seen.add(v["key"])
+            uniq.append(v)
+    res["violations"] = uniq
+    res["evaluations"] = res["traces"] = res["nontrivial"] = n
+    res["rule"] = "every handle kind x six payload shapes x two build profiles"
+    return res
+
+
+def replay_widths(prop, v):
+    r = widths_stage(prop, "quick", "replay")
+    errs = []
+    for x in r["violations"]:
+        errs += x["errors"]
+    return ["[tlc] " + e for e in errs]
